@@ -8,7 +8,7 @@ CONSTANTS
   Logging = FALSE
   MaxK = 1
   MinB = 0
-  MaxB = 1
+  MaxB = 2
   MinW = 0
   MaxW = 2
   MinN = 0
